@@ -329,6 +329,66 @@ Proof.
     destruct (act natf a v1); try discriminate. injection H as <- _ _. exact (IHg dp Hg a0 b r1 v1 u1 Hl E).
 Qed.
 
+(* ---- every accepted response, with or without literals, ends with CR LF ---- *)
+Definition ends_crlf (p : list byte -> res) : Prop :=
+  forall i r v u, p i = ROk r v u -> exists w0, i = w0 ++ 13 :: 10 :: r.
+
+Lemma crlf_tag_ends : ends_crlf (fun i => of_scan (tag_scan eq_case [13; 10] i)).
+Proof.
+  intros i r v u H. cbv beta in H. unfold of_scan in H. destruct (tag_scan eq_case [13; 10] i) as [t r0| |] eqn:E; try discriminate.
+  injection H as <- _ _. cbn [tag_scan] in E. destruct i as [|x i']; [discriminate|]. unfold eq_case in E.
+  destruct (N.eqb_spec 13 x) as [<-|]; [|discriminate]. destruct i' as [|y i'']; [discriminate|].
+  destruct (N.eqb_spec 10 y) as [<-|]; [|discriminate]. injection E as _ <-. exists []. reflexivity.
+Qed.
+
+Lemma seq_ends (self : G -> P) dp : (forall g, sfx (self g dp)) ->
+  forall gs, Forall (fun g => stail g = true -> ends_crlf (self g dp)) gs -> sq_stail gs = true ->
+  forall i acc u0 r v u, seq_run self gs dp i acc u0 = ROk r v u -> exists w0, i = w0 ++ 13 :: 10 :: r.
+Proof.
+  intros Hsfx gs. induction gs as [|x gs IHgs]; intros HF Hsq i acc u0 r v u H; [discriminate|].
+  inversion HF as [|? ? Hx Hgs]; subst. destruct gs as [|y gs].
+  - cbn [sq_stail] in Hsq. cbn [seq_run] in H.
+    destruct (self x dp i) as [r1 v1 u1| | | | |] eqn:E; try discriminate. injection H as <- _ _. exact (Hx Hsq i r1 v1 u1 E).
+  - cbn [sq_stail] in Hsq. apply andb_true_iff in Hsq. destruct Hsq as [_ Hrest].
+    cbn [seq_run] in H. destruct (self x dp i) as [r1 v1 u1| | | | |] eqn:E; try discriminate.
+    destruct (Hsfx x i r1 v1 u1 E) as (c & -> & _). destruct (IHgs Hgs Hrest r1 _ _ r v u H) as (w0 & ->).
+    exists (c ++ w0). rewrite <- app_assoc. reflexivity.
+Qed.
+
+Lemma alt_ends (self : G -> P) dp : forall gs, Forall (fun g => stail g = true -> ends_crlf (self g dp)) gs ->
+  forallb stail gs = true -> ends_crlf (alt_run self gs dp).
+Proof.
+  induction gs as [|x gs IHgs]; intros HF Hall i r v u H; cbn [alt_run] in H; [discriminate|].
+  inversion HF as [|? ? Hx Hgs]; subst. cbn [forallb] in Hall. apply andb_true_iff in Hall. destruct Hall as [Hxt Hrest].
+  destruct (self x dp i) as [r1 v1 u1| | | | |] eqn:E; try discriminate.
+  - injection H as <- _ _. exact (Hx Hxt i r1 v1 u1 E).
+  - exact (IHgs Hgs Hrest i r v u H).
+Qed.
+
+Theorem run_ends_crlf fuel : forall g dp, stail g = true -> ends_crlf (run natf env bound fuel g dp).
+Proof.
+  induction fuel as [|f IHf]; intros g dp Hg.
+  { intros i r v u H. rewrite run_0 in H. discriminate. }
+  revert dp Hg. induction g using G_ind'; intros dp Hg; try discriminate Hg.
+  - rewrite run_S; cbn [step]. cbn [stail] in Hg. unfold is_crlf_tag in Hg. destruct l as [s| | | | | | |]; try discriminate.
+    apply list_eqb_N_eq in Hg. subst s. exact crlf_tag_ends.
+  - rewrite run_S; cbn [step]. cbn [stail] in Hg. destruct (env f0) as [g'|] eqn:E; [|intros i r v u H; discriminate].
+    apply IHf. pose proof (env_ok _ _ E) as Hk. rewrite Hg in Hk. exact Hk.
+  - cbn [stail] in Hg. rewrite run_S; cbn [step]. intros i r v u H. destruct (Nat.leb m dp); [discriminate|]. exact (IHg dp Hg i r v u H).
+  - rewrite stail_seq in Hg. rewrite run_S; cbn [step]. intros i r v u HR.
+    eapply (seq_ends _ dp); [| |exact Hg|exact HR].
+    + intro g. apply run_sfx.
+    + rewrite Forall_forall in *. intros g Hin Ht. apply H; auto.
+  - rewrite stail_alt in Hg. rewrite run_S; cbn [step]. apply alt_ends; auto.
+    rewrite Forall_forall in *. intros g Hin Ht. apply H; auto.
+  - cbn [stail] in Hg. rewrite run_S; cbn [step]. intros i r v u H.
+    destruct (run natf env bound (S f) g dp i) as [r1 v1 u1| | | | |] eqn:E; try discriminate.
+    destruct (act natf a v1); try discriminate. injection H as <- _ _. exact (IHg dp Hg i r1 v1 u1 E).
+  - cbn [stail] in Hg. rewrite run_S; cbn [step]. intros i r v u H.
+    destruct (run natf env bound (S f) g dp i) as [r1 v1 u1| | | | |] eqn:E; try discriminate.
+    destruct (act natf a v1); try discriminate. injection H as <- _ _. exact (IHg dp Hg i r1 v1 u1 E).
+Qed.
+
 (* ---- the statement in the framer's terms: split_crlf finds the first CRLF ---- *)
 Lemma split_crlf_shape : forall i a after, split_crlf i = Some (a, after) ->
   i = a ++ 13 :: 10 :: after /\
